@@ -279,11 +279,16 @@ package compactindex
 // hashBucket: reads len(entries) tuples (10 static bytes + key), masks the hash to 24 bits, detects collisions in a 2^24-bit
 // bitmap, then sorts into eytzinger order. sortWithCompare hands a closure to sort.Slice (not modelled for closures that
 // call another closure), so nothing is known about the order afterwards.
+//@ spec func bitSet(bm []byte, h uint64) bool = (bm[h/8] >> (h%8)) & 1 == 1
 //@ func hashBucket
 //@   mode bv
 //@   requires rd != nil && len(bitmap) == 2097152 && ref(entries) != ref(bitmap)
 //@   modifies entries, bitmap, consumed(rd)
-//@   loop 0 invariant 0 <= rangeidx0
+//@   # C04: when the entries are handed to the sort, all 24-bit hashes of the bucket are pairwise distinct
+//@   fncall sortWithCompare requires forall k, l int :: 0 <= k && k < l && l < len(arg0) ==> arg0[k].Hash != arg0[l].Hash
+//@   loop 0 invariant 0 <= rangeidx0 && len(bitmap) == 2097152 && mask == 16777215
+//@   loop 0 invariant forall k int :: 0 <= k && k < rangeidx0 ==> entries[k].Hash <= 16777215 && bitSet(bitmap, entries[k].Hash)
+//@   loop 0 invariant forall k, l int :: 0 <= k && k < l && l < rangeidx0 ==> entries[k].Hash != entries[l].Hash
 
 // ---- eytzinger layout ----
 // sz, lo, rank and the lemmas szNonneg, ancDisjoint, szStep, szRoot, loRange, eytzOrder, rankRange, eytzBST are in
